@@ -1310,4 +1310,15 @@ theorem step_wf {c : Cfg} {l : Local} {file : File} {din : Option Desc} {ev : Ev
   | declined => simpa [commit, ho] using hwf
   | cbErr => simpa [commit, ho] using hwf
 
+/-! ### compare-and-swap retries -/
+
+theorem casRetry_last (f : Option Desc → Res) (stale : List (Option Desc)) (fresh : Option Desc) :
+    casRetry f (stale ++ [fresh]) = some (f fresh) := by
+  induction stale with
+  | nil => rfl
+  | cons a t ih =>
+    cases ht : t ++ [fresh] with
+    | nil => simp at ht
+    | cons b u => rw [List.cons_append, ht, casRetry, ← ht]; exact ih; intro h; cases h
+
 end PfC08
